@@ -635,8 +635,20 @@ impl Codec {
 pub struct Fixtures {
 	/// encoding of `value(0)`
 	pub datum: Vec<u8>,
-	/// container file per codec (index = `Codec::index`): block 1 = [value(0)], block 2 = [value(1)]
+	/// container files, index = variant * 6 + `Codec::index`.
+	/// variant 0: block 1 = [value(0)], block 2 = [value(1)];
+	/// variant 1 ("sized"): one record per block, decompressed block sizes going up / down / up beyond the
+	/// first / up again (`SIZED_LENS`), so that a decompression buffer is reused with len < capacity and
+	/// then has to grow.
 	pub files: Vec<Option<Vec<u8>>>,
+}
+
+/// Lengths of the string field of the records of the "sized" file (one record per block).
+pub const SIZED_LENS: [usize; 4] = [100, 8, 150, 250];
+pub const N_FILE_VARIANTS: u8 = 2;
+pub fn sized_value(k: usize) -> Rec<'static> {
+	let s: String = std::iter::repeat((b'a' + k as u8) as char).take(SIZED_LENS[k]).collect();
+	Rec { b: Cow::Owned(s), e: Cow::Borrowed(if k % 2 == 0 { "X" } else { "Y" }), l: vec![k as i32], u: None }
 }
 
 pub fn hex(b: &[u8]) -> String {
@@ -662,7 +674,7 @@ impl Fixtures {
 		let schema: serde_avro_fast::Schema = SCHEMA_TEXT.parse().map_err(|e| format!("fixture schema: {e}"))?;
 		let datum = serde_avro_fast::to_datum_vec(&value(0), &mut SerializerConfig::new(&schema)).map_err(|e| format!("fixture datum: {e}"))?;
 		let mut files = Vec::new();
-		for c in Codec::ALL {
+		for (variant, c) in (0..N_FILE_VARIANTS).flat_map(|v| Codec::ALL.into_iter().map(move |c| (v, c))) {
 			if !c.available() {
 				files.push(None);
 				continue;
@@ -684,9 +696,16 @@ impl Fixtures {
 			};
 			let mut cfg = SerializerConfig::new(&schema);
 			let mut w = WriterBuilder::new(&mut cfg).compression(compression).sync_marker(SYNC).build(Vec::new()).map_err(|e| format!("fixture file {c:?}: {e}"))?;
-			w.serialize(&value(0)).map_err(|e| format!("fixture file {c:?}: {e}"))?;
-			w.finish_block().map_err(|e| format!("fixture file {c:?}: {e}"))?;
-			w.serialize(&value(1)).map_err(|e| format!("fixture file {c:?}: {e}"))?;
+			if variant == 0 {
+				w.serialize(&value(0)).map_err(|e| format!("fixture file {c:?}: {e}"))?;
+				w.finish_block().map_err(|e| format!("fixture file {c:?}: {e}"))?;
+				w.serialize(&value(1)).map_err(|e| format!("fixture file {c:?}: {e}"))?;
+			} else {
+				for k in 0..SIZED_LENS.len() {
+					w.serialize(&sized_value(k)).map_err(|e| format!("fixture file {c:?}: {e}"))?;
+					w.finish_block().map_err(|e| format!("fixture file {c:?}: {e}"))?;
+				}
+			}
 			let f = w.into_inner().map_err(|e| format!("fixture file {c:?}: {e}"))?;
 			files.push(Some(f));
 		}
@@ -695,15 +714,23 @@ impl Fixtures {
 	pub fn to_lines(&self) -> String {
 		let mut s = String::new();
 		let _ = writeln!(s, "F datum {}", hex(&self.datum));
-		for c in Codec::ALL {
-			if let Some(f) = &self.files[c.index()] {
-				let _ = writeln!(s, "F file-{} {}", c.letter(), hex(f));
+		for v in 0..N_FILE_VARIANTS {
+			for c in Codec::ALL {
+				if let Some(f) = self.file(c, v) {
+					let _ = writeln!(s, "F file{}-{} {}", if v == 0 { String::new() } else { v.to_string() }, c.letter(), hex(f));
+				}
 			}
 		}
 		s
 	}
 	pub fn empty() -> Fixtures {
-		Fixtures { datum: Vec::new(), files: vec![None; 6] }
+		Fixtures { datum: Vec::new(), files: vec![None; 6 * N_FILE_VARIANTS as usize] }
+	}
+	pub fn file(&self, c: Codec, variant: u8) -> Option<&Vec<u8>> {
+		self.files[variant as usize * 6 + c.index()].as_ref()
+	}
+	pub fn set_file(&mut self, c: Codec, variant: u8, bytes: Vec<u8>) {
+		self.files[variant as usize * 6 + c.index()] = Some(bytes);
 	}
 	/// Parse one `F <name> <hex>` line.
 	pub fn absorb(&mut self, line: &str) -> Result<(), String> {
@@ -713,7 +740,9 @@ impl Fixtures {
 		if name == "datum" {
 			self.datum = bytes;
 		} else if let Some(c) = name.strip_prefix("file-").and_then(|l| l.chars().next()).and_then(Codec::from_letter) {
-			self.files[c.index()] = Some(bytes);
+			self.set_file(c, 0, bytes);
+		} else if let Some(c) = name.strip_prefix("file1-").and_then(|l| l.chars().next()).and_then(Codec::from_letter) {
+			self.set_file(c, 1, bytes);
 		} else {
 			return Err(format!("unknown fixture {name}"));
 		}
